@@ -24,10 +24,10 @@ class C19(Prop):
         return [{"module": "MC_Catalog"}]
 
     def scenarios(self, ctx: Ctx):
-        out = [{"state": "ON", "order": []}, {"state": "OFF", "order": []}]
+        out = [{"state": "ON", "order": []}, {"state": "OFF", "order": []}, {"state": "ON", "order": ["USE"]}]
         # the tables must not depend on which part of the library was imported first: fresh interpreters, several import orders
         for order in (["bridge", "api"], ["api", "bridge"], ["device", "bridge", "api"], ["api", "device", "schedule", "bridge"], ["schedule", "bridge"],
-                      ["bridge", "STIR", "api"], ["STIR"]):
+                      ["bridge", "STIR", "api"], ["STIR"], ["USE"], ["api", "USE", "STIR"]):
             out.append({"state": "ON", "order": order, "fresh": True})
         # what the clients do with the port tables: the port each API class dials, over histories of accepted / refused connects
         hists = [["ok"], ["refused", "ok"], ["refused", "refused", "ok"], ["ok", "disc", "ok"], ["ok", "disc", "refused", "ok"],
